@@ -16,7 +16,11 @@ RULE = ("cases = (parser specification, argv). Specifications: 6 fixed signature
         "A case is non-trivial when the argv contains at least one token that is a task name/alias or a flag spelling "
         "of one of the contexts; distinct = distinct (specification, argv) pairs. Plus an INTERLEAVING family: a parse that has "
         "another complete parse in between two of its tokens (re-entrant from an argument's kind callable, or on a second "
-        "thread parked by an Event handshake), on the same or another Parser: each outcome must equal the outcome run alone")
+        "thread parked by an Event handshake), on the same or another Parser: each outcome must equal the outcome run alone. "
+        "And a VALUE-SHAPE family: values containing every character that str.splitlines / regex '.', '$', '\\s' / str.strip treat "
+        "specially (leading, inner, trailing) for value, optional-value, list flags, positionals and core value flags in the "
+        "'=', glued and spaced spellings must be accepted verbatim; integer texts (zero-padded, prefixed literals, underscores, "
+        "surrounding whitespace, non-ASCII digits) for int flags / positionals must be accepted iff Python's int(text) accepts them")
 TRUSTED = ["Lean 4.33 kernel", "axioms propext/Classical.choice/Quot.sound only",
            "harness/props/c07.py correspondence + canonicalisation", "tools/extractors/parser.py (state table, dispatch probes)",
            "model Invoke/Model/Parser.lean hand-written, tied by correspondence on every run",
@@ -595,6 +599,97 @@ def check_case(bench, argv, with_repeat, other=None):
     return out1, why, exc
 
 
+# ------------------------------------------------------------------ family: value shapes (characters and integer literals)
+
+# everything `str.splitlines`, regex `.`/`$`/`\s` and `str.strip` treat specially, in leading / inner / trailing position
+SPECIAL_VALUES = ["\n", "a\nb", "\nb", "a\n", "subject\n\nbody", "a\r\nb", "\r", "a\rb", "\t", "a\tb", "a\x0bb", "\x0c",
+                  "a\x1cb", "\x1d", "a\x1e", "a\x85b", "\x85", "a\u2028b", "\u2029", "a b", " ", " a", "a ", "a\xa0b", "a\u2003b",
+                  "a\n=b", "\n\n"]
+# zero-padded decimals, prefixed literals, underscores, surrounding whitespace, non-ASCII digits, signs
+INT_VALUES = ["0", "7", "00", "08", "007", "010", "-09", "+010", "-0", "0x1f", "0X1F", "0o17", "0b101", "1_000", "_1", "1_", "1__0",
+              " 7", "7 ", "7\n", "\t7", "\x0b7", "7\x1c", "+ 7", "", "+", "-", "7 7", "1e3", "1.0", "\u0663", "\uff17", "1\u0663",
+              "\xa07", "7\u2003", "\x857", "99999999999999999999"]
+
+VALSHAPE_SIG = {"id": "V1", "initial": MINI_CORE, "ign": False, "tasks": [
+    {"name": "vt", "params": [["pos"], ["msg", "m"], ["num", 1], ["opt", None], ["lst", None]], "optional": ["opt"], "iterable": ["lst"]},
+    {"name": "nx", "params": [["flag", False]]}],
+    "contexts": [{"name": "ip", "aliases": [], "args": [{"names": ["n"], "kind": "int", "positional": True}]}]}
+
+
+def py_int(text):
+    """the documented cast: `kind(value)` with kind = int"""
+    try:
+        return int(text)
+    except ValueError:
+        return None
+
+
+def valshape_cases():
+    cases = []
+    str_owners = [("vt", "msg", "--msg", "-m"), ("vt", "opt", "--opt", "-o"), ("vt", "lst", "--lst", "-l"),
+                  ("vt", "pos", None, None), (None, "hide", "--hide", None)]
+    int_owners = [("vt", "num", "--num", "-n"), (None, "command-timeout", "--command-timeout", "-T"), ("ip", "n", None, None)]
+    for owners, pool, typ in ((str_owners, SPECIAL_VALUES, "str"), (int_owners, INT_VALUES, "int")):
+        for task, key, lng, sht in owners:
+            for v in pool:
+                forms = []
+                if lng is None:
+                    if v.startswith("-"):
+                        continue          # a flag-like token is not a positional value
+                    forms.append(("positional", [v]))
+                else:
+                    forms.append(("eq", [lng + "=" + v]))
+                    forms.append(("spaced", [lng, v]))
+                    if sht:
+                        forms.append(("eq", [sht + "=" + v]))
+                        if v and not v.startswith("="):
+                            forms.append(("glued", [sht + v]))
+                for form, toks in forms:
+                    cases.append({"kind": "valshape", "typ": typ, "task": task, "key": key, "value": v, "form": form, "toks": toks})
+    return cases
+
+
+def valshape_argv(case):
+    toks = case["toks"]
+    if case["task"] == "ip":
+        return ["ip"] + toks + ["nx", "--flag"]
+    if case["task"] is None:
+        return toks + ["vt", "posv", "nx", "--flag"] if case["value"] != "" or case["form"] != "spaced" else toks + ["vt", "posv", "nx", "--flag"]
+    if case["key"] == "pos":
+        return ["vt"] + toks + ["nx", "--flag"]
+    return ["vt", "posv"] + toks + ["nx", "--flag"]
+
+
+def oracle_valshape(case, exc, kws):
+    """str-like owners: the flag is known and has a value - none of the documented error situations applies - so the parse
+    must succeed and deliver the value verbatim.  int owners: the outcome is what Python's int(text) says."""
+    if exc not in (None, "ParseError"):
+        return "exception of type %s escaped parse_argv (only ParseError is documented)" % exc
+    v, key = case["value"], case["key"]
+    want = v
+    if case["typ"] == "int":
+        want = py_int(v)
+        if want is None:
+            if exc is None:
+                return "int-typed %s accepted the text %r although int(%r) raises ValueError" % (key, v, v)
+            return None
+    if exc is not None:
+        return ("%s %s given the value %r as %r was refused with a ParseError although the flag is known and has a value%s"
+                % (case["typ"], key, v, case["toks"], "" if case["typ"] == "str" else " that int() accepts (= %r)" % want))
+    owner = case["task"]
+    got = None
+    for name, kw in kws:
+        if name == owner:
+            got = kw.get(key)
+    if key == "lst":
+        want = [v]
+    if got != want or type(got) is not type(want):
+        return "%s received %r for the text %r given as %r, expected %r" % (key, got, v, case["toks"], want)
+    if kws[-1] != ("nx", {"flag": True}):
+        return "the task after the value was not parsed intact: %r" % (kws[-1],)
+    return None
+
+
 # ------------------------------------------------------------------ parses interleaved with other parses
 
 TRIGGER = "PAUSE"
@@ -719,6 +814,11 @@ def interleave_cases(rng, n):
 
 
 def replay(case):
+    if case.get("kind") == "valshape":
+        bench = Bench(VALSHAPE_SIG)
+        _, exc, _, kws = impl_parse(bench.parser, valshape_argv(case))
+        why = oracle_valshape(case, exc, kws)
+        return why is None, why or "ok"
     if case.get("kind") == "interleave":
         why, _ = interleave_case(case)
         return why is None, why or "ok"
@@ -747,12 +847,12 @@ def argvs_for(bench, ctx, rng):
             out.append([rng.choice(full) for _ in range(rng.choice([3, 3, 4]))])
     else:
         out += [list(t) for t in itertools.product(red, repeat=3)]
-        for _ in range(500):
+        for _ in range(300):
             out.append([rng.choice(full) for _ in range(3)])
     return out, full, red
 
 
-VALUES = ["v", "5", "-5", "abc", "x=y", "", "7"]
+VALUES = ["v", "5", "-5", "abc", "x=y", "", "7", "a\nb", "08", " 7", "1_0"]
 
 
 def structured_argv(bench, full, rng):
@@ -876,7 +976,7 @@ def run(ctx):
         run_bench(bench, argvs, ctx, out, drv, "exh")
     out.exhaustive = True
     # 2. random signature sets x random fuzz
-    nsig = ctx.n(170, 4000)
+    nsig = ctx.n(120, 4000)
     built = 0
     while built < nsig:
         sig = rand_sig(rng)
@@ -889,8 +989,34 @@ def run(ctx):
         full = alphabet(bench.view, sig.get("rich_initial", True))[0]
         argvs = [fuzz_argv(bench, full, rng) for _ in range(40)]
         run_bench(bench, argvs, ctx, out, drv, "fuzz")
-    # 3. parses interleaved with other parses (re-entrant from a kind callable; two threads with a deterministic handshake)
-    for case in interleave_cases(rng, ctx.n(300, 4000)):
+    # 3. value shapes: characters special to regexes / string methods in every position and spelling; integer literals
+    bench = Bench(VALSHAPE_SIG)
+    vcases = valshape_cases()
+    argvs = [valshape_argv(c) for c in vcases]
+    model = None
+    if ctx.model_ok:
+        parts = drv.run([bench.header + ";".join(enc_argv(a) for a in argvs)])[0].split(";")
+        if parts[0] in ("W0", "W1") and len(parts) == len(argvs) + 1:
+            model = parts[1:]
+    for i, (case, argv) in enumerate(zip(vcases, argvs)):
+        got, exc, same, kws = impl_parse(bench.parser, argv)
+        why = oracle_valshape(case, exc, kws)
+        if not same or fingerprint(bench.parser) != bench.fp0:
+            why = why or "parse_argv modified its argv or the parser's contexts"
+            bench.rebuild()
+        out.case(case, True)
+        ascii_only = all(ord(ch) < 128 for ch in case["value"])
+        out.hist["valshape:%s:%s%s" % (case["typ"], "ok" if exc is None else "ParseError" if exc == "ParseError" else "escape",
+                                        "" if ascii_only or case["typ"] == "str" else ":non-ascii(oracle only)")] += 1
+        if model is not None and (ascii_only or case["typ"] == "str"):
+            # the model's int cast is the ASCII part of int(str); non-ASCII digits / whitespace are judged by the oracle only
+            out.traces += 1
+            if not same_outcome(got, model[i]):
+                out.disagree(dict(case, sig=VALSHAPE_SIG, argv=argv), got, model[i])
+        if why:
+            out.fail(case, why)
+    # 4. parses interleaved with other parses (re-entrant from a kind callable; two threads with a deterministic handshake)
+    for case in interleave_cases(rng, ctx.n(250, 4000)):
         try:
             why, nontrivial = interleave_case(case)
         except common.Hang:
